@@ -31,9 +31,11 @@ def main():
             {"harness": "c04", "cfg": {"P": "2", "C": "1"}, "label": "2 proxies x 1 client: " + U, "budget_s": 100},
             {"harness": "c04", "cfg": {"P": "2", "C": "2"}, "label": "2 proxies x 2 clients: " + U, "budget_s": 500},
             {"harness": "c04", "cfg": {"P": "2", "C": "2", "dup": "1"}, "label": "2 proxy polls (optionally one session id, different NAT pools) x 2 clients: " + U, "budget_s": 400},
+            {"harness": "c04", "cfg": {"P": "3", "C": "2", "beh": "2"}, "label": "3 proxies x 2 clients (2 answer behaviours): " + U, "budget_s": 400},
+            {"harness": "c04", "cfg": {"P": "2", "C": "3", "beh": "2"}, "label": "2 proxies x 3 clients (2 answer behaviours): " + U, "budget_s": 400},
             {"harness": "c04", "cfg": {"P": "1", "C": "1"}, "bound": 2, "label": "1 proxy x 1 client, pb<=2 without reduction (cross-check of the reduction)", "budget_s": 60},
         ]
-        total = 1300
+        total = 2100
     summary, tot, samples, exh = sched.run_passes(rep, binary, passes, total)
     sched.sched_coverage(rep, summary, tot, samples, exh)
     rep.assumptions += [
